@@ -42,7 +42,7 @@ func (s *ProtoScenario) Setup(k *sim.Kernel) {
 	s.svc = svc
 	k.Spawn("serve", serveTask(svc, s.Service, context.Background()))
 	for i, c := range s.Clients {
-		k.Spawn(fmt.Sprintf("client%d", i), rawClientTask(i, s.Service, c))
+		k.Spawn(sf("client%d", i), rawClientTask(i, s.Service, c))
 	}
 	if s.Shutdown {
 		k.Spawn("controller", func() {
@@ -128,7 +128,7 @@ func (s *ProtoScenario) Check(k *sim.Kernel) []sim.Violation {
 	}
 	for ci, cs := range s.Clients {
 		faulted := cs.End != "close" || cs.NoRead
-		out = append(out, checkClientConn(fmt.Sprintf("client%d", ci), s.Service, s.Scripts, cs, conns[ci], perClient[ci], faulted, s.Faulted, false)...)
+		out = append(out, checkClientConn(sf("client%d", ci), s.Service, s.Scripts, cs, conns[ci], perClient[ci], faulted, s.Faulted, false)...)
 	}
 	// handler events that belong to no scripted client (the probe connection has none)
 	for _, e := range perClient[-1] {
@@ -146,7 +146,7 @@ func (s *ProtoScenario) Check(k *sim.Kernel) []sim.Violation {
 func replyKey(exp, obs ReplyModel) string {
 	switch {
 	case exp.Error != obs.Error:
-		return fmt.Sprintf("error-name exp=%q", classifyName(exp.Error))
+		return sf("error-name exp=%q", classifyName(exp.Error))
 	case exp.Continues != obs.Continues:
 		return "continues-flag"
 	default:
